@@ -16,6 +16,10 @@ import PyamgV.Proofs.ExtC11RefineMod
 import PyamgV.Proofs.ExtC11RefineAir
 import PyamgV.Proofs.ExtGlueApi
 import PyamgV.Proofs.ExtGlueTheta
+import PyamgV.Proofs.ExtC11XBlockSolve
+import PyamgV.Proofs.ExtC11XApi
+import PyamgV.Proofs.ExtC11XAirGmres
+import Mathlib.Analysis.Real.Sqrt
 import Mathlib.Algebra.Order.Ring.Rat
 import Mathlib.Algebra.Field.Rat
 
@@ -241,6 +245,73 @@ restate api_classical_theta_modified_end_to_end := PyamgV.Glue.apiClassicalTheta
 restate api_classical_theta_unmodified_end_to_end := PyamgV.Glue.apiClassicalTheta_unmodified_refines
 restate api_direct_theta_end_to_end := PyamgV.Glue.apiDirectTheta_refines
 
+/-! ## extension E49: block AIR, BSR / CSC wrappers, the GMRES local solve
+
+`C11XB.bairRow` (Model/ExtC11XBlock.lean) is one block row of `block_approx_ideal_restriction_pass2`: the
+neighbourhood of the scalar kernel on the block strength matrix, the dense local matrix `A0` and the
+`blocksize` right-hand sides `b0` written with the kernel's index arithmetic, exact local solves, the drop
+test `|x| > 1e-15`, the identity block; verified before it is returned (`ext_c11x_bair2`, compared with the
+rebuilt kernel with QR and with GMRES local solves on every run).  `C11XA.apiInjection` / `apiOnePoint`
+(Model/ExtC11XApi.lean) are the wrappers `injection_interpolation` / `one_point_interpolation` on CSR, CSC
+and BSR input, returned as the arrays SciPy holds (`ext_c11x_inj`, `ext_c11x_onept`).  `C11XG.denseGmres`
+(Model/ExtC11XGmres.lean) is `dense_GMRES`, run by the driver on binary64 (`ext_c11x_gmres`) and compared
+with the local solves of both kernels. -/
+
+/-- block analogue of `air_row_spec`: structure, identity block on the C-point, every entry of every
+block `(R A)[c, f]`, `f` in the neighbourhood, is zero -/
+restate block_air_row_spec := PyamgV.C11XB.bairRow_spec
+restate block_air_identity_block := PyamgV.C11XB.ident_getD
+/-- the positional writes of the kernel: `A0[(jb*bs + br)*nd + ib*bs + bc] = A[N_jb, N_ib][br, bc]` … -/
+restate block_air_local_matrix_assembly := PyamgV.C11XB.assembleA0_spec
+/-- … and `b0[nd*r + bi*bs + cc] = -A[c, N_bi][r, cc]` -/
+restate block_air_local_rhs_assembly := PyamgV.C11XB.assembleB0_spec
+/-- an exact solution of the `r`-th local system (as assembled, read column-major) annihilates row `r` of
+every block `(R A)[c, N_ib]` … -/
+restate block_air_exact_solve_annihilates := PyamgV.C11XB.raBlk_of_solves
+/-- … so the model returns a row as soon as the `blocksize` local solves are exact and the drop test drops
+only zeros: the exact-solve hypothesis in explicit form -/
+restate block_air_row_of_exact_solves := PyamgV.C11XB.bairRow_of_solves
+
+/-- every stored block of a BSR result of the two wrappers is the identity block -/
+restate identity_blocks := PyamgV.C11XA.identBlocks_blk
+/-- identity blocks on a pattern = pattern ⊗ I (dense meaning `Spmm.Bsr.val`) -/
+restate identity_blocks_kronecker := PyamgV.C11XA.identBsr_val
+/-- **`injection_interpolation` on CSR, CSC or BSR input**: entry `(I*bs + r, J*bs + c)` is `1` iff `r = c`,
+`I` is a C-point and `J` its coarse index -/
+restate api_injection_any_format := PyamgV.C11XA.apiInjection_val
+restate api_injection_shape_only := PyamgV.C11XA.apiInjection_shape_only
+/-- `one_point_interpolation` on BSR input: the index arrays are those of the scalar kernel model on the
+strength matrix (`one_point_array_refines` applies to them), the data are identity blocks … -/
+restate api_one_point_bsr_index_arrays := PyamgV.C11XA.apiOnePoint_bsr_index
+/-- … and `P = P_scalar ⊗ I` (any format without `by_val`; BSR always) -/
+restate api_one_point_kronecker := PyamgV.C11XA.apiOnePoint_val
+restate api_one_point_shape_only := PyamgV.C11XA.apiOnePoint_shape_only
+/-- CSC input: converted at entry … -/
+restate api_one_point_csc_entry := PyamgV.C11XA.apiOnePoint_csc
+restate api_injection_csc_entry := PyamgV.C11XA.apiInjection_csc
+/-- … to a well-formed CSR matrix with the same dense meaning (`Spmm.val_cscToCsr`) -/
+restate csc_entry_same_matrix := PyamgV.C11XA.csc_entry_same_matrix
+
+/-- the Arnoldi loop of `dense_GMRES`: orthonormal basis and Arnoldi relation as long as it does not `break` -/
+restate dense_gmres_arnoldi_invariant := PyamgV.C11XG.arn_inv
+/-- the Givens sweep (done after the loop, on the whole array) and `upper_tri_solve`: the computed `y` solves
+the unrotated Hessenberg system -/
+restate dense_gmres_sweep_solves := PyamgV.C11XG.sweep_solves
+/-- `n` orthonormal vectors of `Kⁿ` are complete -/
+restate orthonormal_complete := PyamgV.C11XG.complete_of_orthonormal
+/-- module level: full length, no breakdown ⇒ `B x = b` -/
+restate dense_gmres_module_exact := PyamgV.C11XG.dgCore_solves
+/-- the model on `Vector K n` (what the driver runs) is carried onto the module model -/
+restate dense_gmres_model_hom := PyamgV.C11XG.dgCore_hom
+/-- **`dense_GMRES` (the executable model, `maxiter = 0` or `≥ n`, no breakdown, exact arithmetic) returns the
+exact solution of `A x = b`** — including the diagonal scaling and the `n = 1` shortcut -/
+restate dense_gmres_exact := PyamgV.C11XG.denseGmres_exact
+/-- the check of `air_row_spec` passes on every exact solution of the local system (whichever solver) -/
+restate air_row_of_exact_solve := PyamgV.C11XG.air_row_of_exact_solve
+/-- **the `use_gmres = 1` path of `approx_ideal_restriction_pass2` in exact arithmetic**: the row assembled
+from the `dense_GMRES` result on the local system satisfies `(R A)[c, f] = 0` on the neighbourhood -/
+restate air_row_of_gmres := PyamgV.C11XG.air_row_of_gmres
+
 /-! ## non-vacuity
 
 1-D Neumann Laplacian on 5 points (zero row sums), C = {0, 4}: the F-point 1 has the strong
@@ -316,5 +387,65 @@ example : C11X.rowAt (-1 : Int) (none : Option Rat)
     (Glue.apiClassicalTheta (1 / 1000000) true (1 / 1048576) (1 / 4) true A5c split5).2.2 1 = [(0, some 1)] := by
   decide +kernel
 end example5
+
+/-! E49 non-vacuity.  Block AIR: a 3 x 3 block matrix with 2 x 2 blocks, C = {1}, degree 1: the model returns
+a row (the exact solves exist, nothing is dropped).  GMRES: the reals with `Real.sqrt` satisfy the square-root
+hypotheses, and the rotation `A = [[0, -1], [1, 0]]`, `b = (1, 0)` runs to full length without breakdown
+(`NoBreakdown`), so `dense_gmres_exact` applies to it. -/
+section exampleE49
+def Ab3 : C11XB.BMat := ⟨2, #[0, 2, 5, 7], #[0, 1, 0, 1, 2, 1, 2],
+  #[4, 1, 0, 4, -1, 0, 1, -1,  -1, 1, 0, -1, 5, 1, 1, 5, -1, 0, 2, -1,  0, -1, -1, 1, 4, 0, 1, 4]⟩
+def S3 : N.Csr := ⟨3, #[0, 1, 3, 4], #[1, 0, 2, 1], #[]⟩
+example : (C11XB.bairRow (1 / 1000000000000000) Ab3 S3 #[0, 1, 0] 1 1).isSome = true := by decide +kernel
+example : (C11XB.bairRow (1 / 1000000000000000) Ab3 S3 #[0, 1, 0] 1 1).map (fun r => r.map (·.1)) = some [0, 2, 1] := by
+  decide +kernel
+/-- injection on BSR input: the block rows are identity blocks on the C-points -/
+example : (C11XA.apiInjection (.bsr ⟨4, 4, 2, 2, #[0, 1, 2], #[0, 1], #[1, 0, 0, 1, 1, 0, 0, 1]⟩) #[0, 1]).ax
+    = #[1, 0, 0, 1] := by decide +kernel
+
+example : ∃ sqrt : ℝ → ℝ, (∀ a, 0 ≤ a → sqrt a * sqrt a = a) ∧ (∀ a, 0 ≤ sqrt a) :=
+  ⟨Real.sqrt, fun _ h => Real.mul_self_sqrt h, Real.sqrt_nonneg⟩
+
+open PyamgV.C07 PyamgV.C11XG in
+noncomputable def Arot : Vector (Vector ℝ 2) 2 := #v[#v[0, -1], #v[1, 0]]
+noncomputable def brot : Vector ℝ 2 := #v[1, 0]
+
+open PyamgV.C07 PyamgV.C11XG in
+theorem rot_step1 : arnVec Arot brot Real.sqrt (1 / 10 ^ 12) 1 1 = ⟨[#v[1, 0], #v[0, 1]], [[0, 1]], false, 2⟩ := by
+  have tolneg : ¬ (1 : ℝ) < (10 ^ 12)⁻¹ := by norm_num
+  simp [arnVec, vsdiv, iter, arnStep, orthO, vecOps, vmv, vdot, vdotN, smallK, Arot, brot, tolneg]
+
+open PyamgV.C07 PyamgV.C11XG in
+theorem rot_step2 : arnVec Arot brot Real.sqrt (1 / 10 ^ 12) 1 2 =
+    ⟨[#v[1, 0], #v[0, 1]], [[0, 1], [-1, 0, 0]], true, 2⟩ := by
+  have h : arnVec Arot brot Real.sqrt (1 / 10 ^ 12) 1 2 =
+    arnStep (vecOps (fun a => a) Arot Arot) vsdiv Real.sqrt (smallK (1 / 10 ^ 12)) 2 brot
+      (arnVec Arot brot Real.sqrt (1 / 10 ^ 12) 1 1) := rfl
+  rw [h, rot_step1]
+  simp [arnStep, vsdiv, orthO, vecOps, vmv, vdot, vdotN, smallK, Arot, brot]
+
+open PyamgV.C07 PyamgV.C11XG in
+/-- the hypotheses of `dense_gmres_exact` hold on a concrete system over the reals -/
+theorem rot_no_breakdown : NoBreakdown Arot brot Real.sqrt (1 / 10 ^ 12) 0 false := by
+  have hn : Real.sqrt (vdot (fun a => a) brot brot) = 1 := by simp [brot, vdot, vdotN]
+  constructor
+  · left; rfl
+  · intro h; omega
+  · intro _
+    simp only [dgSystem, Bool.false_eq_true, if_false, hn]
+    simp [smallK]; norm_num
+  · intro _ k hk
+    have : k = 0 := by omega
+    subst this
+    simp only [dgSystem, Bool.false_eq_true, if_false, hn]
+    show (arnVec Arot brot Real.sqrt (1 / 10 ^ 12) 1 1).stop = false
+    rw [rot_step1]
+  · intro _ i hi
+    simp only [dgSystem, Bool.false_eq_true, if_false, hn, rot_step2]
+    have hi' : i = 0 ∨ i = 1 := by omega
+    rcases hi' with rfl | rfl
+    · simp [sweepOf, padCols, hent, givStep, isZ, rotL, List.range_succ, smallK]; norm_num
+    · simp [sweepOf, padCols, hent, givStep, isZ, rotL, List.range_succ, smallK]; norm_num
+end exampleE49
 
 end PyamgV.Props.C11
